@@ -46,7 +46,7 @@ int main(int argc, char **argv) {
               "parseFrame, tick), the Linux loop flow and the ESP32 entry (exact-size copy) on malloc(MTU) receive buffers under ASan+UBSan; "
               "ledger must be empty after teardown. non-trivial = >=1 frame >=32 bytes with ToS 0/1 and opcode Discover/Hello/Emit/Query/"
               "QueryLargeTlv and >=1 allocation or transmission by the core; distinct = digest of the step list";
-    bool ok = run_cases(a, ev, "c01-structured", a.n(20000, 400000), 100, case_gen(), run);
+    bool ok = run_cases(a, ev, "c01-structured", a.n(40000, 800000), 100, case_gen(), run);
     ev.write(a.out);
     return ok ? 0 : 1;
 }
